@@ -120,8 +120,8 @@ def install_clock():
 
 
 # ---- per-case watchdog ----------------------------------------------------------------------------
-class CaseTimeout(Exception):
-    pass
+class CaseTimeout(BaseException):
+    """raised by the watchdog; a BaseException so that no `except Exception` of a component or of the code under test swallows it"""
 
 
 def _alarm(signum, frm):
